@@ -113,6 +113,10 @@ pub enum WriteOp {
 #[derive(Clone, Debug, PartialEq, Eq, Serialize, Deserialize, Hash, Default)]
 pub struct Node {
     pub fail: bool,
+    /// for reply handlers: 1 = fail iff invoked with an Ok result, 2 = fail iff invoked with an
+    /// Err result (0 / absent = `fail` decides)
+    #[serde(default)]
+    pub fail_when: u8,
     pub writes: Vec<WriteOp>,
     pub attrs: Vec<(String, String)>,
     pub events: Vec<(String, Vec<(String, String)>)>,
